@@ -3,6 +3,7 @@
    bookkeeping: exactly ONE value is remembered per offspring, the one `_choice_parent` picks among the RAW fitness of
    the selected parents (second row of the result = what `self._previous_fitness_i.append` appended). -/
 import TFV.Generated.Src.PDPGA_get_new_individ_g
+import TFV.Generated.Src.PDPGP_get_new_individ_g
 
 namespace TFV.SrcTie
 open TFV.Generated.Src TFV
@@ -22,5 +23,22 @@ theorem C14_src_pdpga_offspring (scale rank : List Int) (pop : List (List Int)) 
                            (Imp.gather rank (selFn scale rank tour quantity 0)) 2) probaEff 3,
             [parentFn (Imp.gather fit (selFn scale rank tour quantity 0)) 1]] := by
   simp [PDPGA_get_new_individ_g, hf, hp, hs, hr]
+
+/-- PDPGP: the same wiring with trees as identifiers -/
+theorem C14_src_pdpgp_offspring (scale rank pop fit : List Int) (maxLevel uniset : Int)
+    (selFn : List Int → List Int → Int → Int → Nat → List Int)
+    (crossFn : List Int → List Int → List Int → Int → Nat → Int) (mutFn : Int → Int → Int → Int → Nat → Int)
+    (parentFn : List Int → Nat → Int)
+    (probaEff tour quantity proba : Int) (isConst : Bool)
+    (hf : Imp.allInb fit (selFn scale rank tour quantity 0) = true)
+    (hp : Imp.allInb pop (selFn scale rank tour quantity 0) = true)
+    (hs : Imp.allInb scale (selFn scale rank tour quantity 0) = true)
+    (hr : Imp.allInb rank (selFn scale rank tour quantity 0) = true) :
+    PDPGP_get_new_individ_g scale rank pop fit maxLevel uniset selFn crossFn mutFn parentFn probaEff tour quantity proba isConst =
+      some [[mutFn (crossFn (Imp.gather pop (selFn scale rank tour quantity 0))
+                            (Imp.gather scale (selFn scale rank tour quantity 0))
+                            (Imp.gather rank (selFn scale rank tour quantity 0)) maxLevel 2) uniset probaEff maxLevel 3],
+            [parentFn (Imp.gather fit (selFn scale rank tour quantity 0)) 1]] := by
+  simp [PDPGP_get_new_individ_g, hf, hp, hs, hr]
 
 end TFV.SrcTie
